@@ -18,7 +18,7 @@ pub fn mon() -> Mon {
         replay,
         rule: "Corruption workload against decode_packet and process_packet on a context A while a twin context B (identical configuration) receives the same history minus the bad packets: (a) every base packet (all library encoders, forged requests/responses for every command, all message types, maximum-length packets) x all 255 wrong PEC values; (b) every burst of <= 8 consecutive bits (all 128 patterns with the leading bit set) at every bit offset of a set of base packets covering every type/command/direction (40 packets quick, all in thorough); (c) random multi-bit damage; (d) random strings of every length with plausible headers; interleaved with valid traffic (assignments, queries, vendor messages) that goes to both A and B. Oracle (independent CRC-8): last byte != CRC of the rest => neither call returns Ok, the 64-300 byte poisoned response buffer is byte-identical afterwards, both EID accessors are unchanged, and every later common operation yields identical results and response bytes on A and B; conversely whenever either call returns Ok the PEC matches. The generator self-checks that every burst really changes the CRC. A sample is logged as JSONL and re-checked in Python. Non-trivial = input with a wrong PEC whose header is otherwise supported (it reaches a PEC comparison); distinct = distinct corrupted byte strings.",
         assumptions: &["rejection for any other reason is fine; a panic counts as 'not accepted' (it is C10's event) but the no-state-change checks still apply after it"],
-        children: no_children,
+        children: rel_child_quarter,
     }
 }
 
